@@ -231,6 +231,9 @@ INDEX_KINDS = ["range0", "range_offset", "range_step", "datetime_D", "datetime_h
 # time indexes in which one label occurs twice (hourly wall-clock stamps over the end of daylight saving, several
 # readings per period): monotone, accepted by the library's validation, handled purely by position
 REPEAT_INDEX_KINDS = ["datetime_repeat", "period_repeat"]
+# a time-zone aware hourly index that runs across the end of daylight saving time (the wall-clock hour 02:00-03:00 occurs
+# twice, the instants are distinct): usable everywhere, also for update
+TZ_INDEX_KINDS = ["datetime_tz_dst"]
 INDEX_NAMES = [None, "time", "t", "labels", "ilocs", "index", 0]  # also the library's own output column names
 
 
@@ -281,6 +284,8 @@ def _build_index(spec, n):
         return pd.period_range(spec["start"], periods=n, freq="M")
     if k == "period_D":
         return pd.period_range(spec["start"], periods=n, freq="D")
+    if k == "datetime_tz_dst":
+        return pd.date_range("2021-10-30 16:00", periods=n, freq="h", tz="Europe/Oslo")
     if k == "datetime_repeat":
         base = pd.date_range(spec["start"], periods=max(n - 1, 1), freq="h")
         at = min(spec["at"], len(base) - 1)
